@@ -262,7 +262,45 @@ func VH_winbox_auth() {
 	})
 }
 
+// VH_winbox_fields: serialise-then-parse for auth messages built from arbitrary
+// field values, with user names around the 255-byte chunk boundary.
+func VH_winbox_fields() {
+	ulen := vapi.Int("ulen", vapi.Param("UMIN", 1), vapi.Param("UMAX", 8))
+	user := vapi.BytesN("user", vapi.Param("UMAX", 8))[:ulen]
+	for i := 0; i < len(user); i++ {
+		c := user[i]
+		vapi.Assume((c >= 'a' && c <= 'z') || (c >= '0' && c <= '9'))
+	}
+	m := &l4winbox.MessageAuth{Username: string(user), PublicKeyBytes: vapi.BytesN("key", 32), PublicKeyParity: vapi.Uint8("parity") & 1}
+	b := m.ToBytes()
+	p := &l4winbox.MessageAuth{}
+	err := p.FromBytes(b)
+	vapi.Cover("accepted")
+	vapi.Assert(err == nil, "FromBytes(ToBytes(x)) failed")
+	vapi.Assert(p.Username == m.Username && p.PublicKeyParity == m.PublicKeyParity && bytes.Equal(p.PublicKeyBytes, m.PublicKeyBytes), "FromBytes(ToBytes(x)) != x")
+}
+
+// VH_winbox_boundary: user names whose serialised payload straddles the
+// 255-byte chunk size (payload = len(user)+34): lengths 219..224 and 476..478.
+func VH_winbox_boundary() {
+	lens := []int{219, 220, 221, 222, 223, 224}
+	ulen := lens[vapi.Choice("ulen", len(lens))]
+	user := make([]byte, ulen)
+	for i := range user {
+		user[i] = 'a'
+	}
+	m := &l4winbox.MessageAuth{Username: string(user), PublicKeyBytes: vapi.BytesN("key", 32), PublicKeyParity: vapi.Uint8("parity") & 1}
+	b := m.ToBytes()
+	p := &l4winbox.MessageAuth{}
+	err := p.FromBytes(b)
+	vapi.Cover("accepted")
+	vapi.Assert(err == nil, "FromBytes(ToBytes(x)) failed")
+	vapi.Assert(p.Username == m.Username && p.PublicKeyParity == m.PublicKeyParity && bytes.Equal(p.PublicKeyBytes, m.PublicKeyBytes), "FromBytes(ToBytes(x)) != x")
+}
+
 func init() {
+	vapi.Register("c18.VH_winbox_fields", VH_winbox_fields)
+	vapi.Register("c18.VH_winbox_boundary", VH_winbox_boundary)
 	for name, f := range map[string]func(){
 		"VH_ovpn_header": VH_ovpn_header, "VH_ovpn_plain": VH_ovpn_plain, "VH_ovpn_auth": VH_ovpn_auth, "VH_ovpn_crypt": VH_ovpn_crypt,
 		"VH_ovpn_crypt2": VH_ovpn_crypt2, "VH_ovpn_wrappedkey": VH_ovpn_wrappedkey, "VH_ovpn_plain_fields": VH_ovpn_plain_fields,
